@@ -31,7 +31,7 @@ K0 = 14
 
 
 def budget(tier):
-    return {"examples": 1100 if tier == "quick" else 9000,
+    return {"examples": 2200 if tier == "quick" else 12000,
             "soft_seconds": 300 if tier == "quick" else 3000}
 
 
